@@ -6,11 +6,13 @@ import (
 	"fmt"
 	"math/rand"
 	"os"
+	"reflect"
 	"sort"
 	"strings"
 	"sync"
 	"testing"
 	"time"
+	"unsafe"
 
 	"github.com/anishathalye/porcupine"
 	"github.com/ontio/ontology-eventbus/actor"
@@ -18,7 +20,9 @@ import (
 	"verifharness/kit"
 	"verifharness/kit/pk"
 
+	"github.com/polynetwork/poly/common"
 	"github.com/polynetwork/poly/core/ledger"
+	"github.com/polynetwork/poly/core/store"
 	"github.com/polynetwork/poly/core/types"
 	perr "github.com/polynetwork/poly/errors"
 	_ "github.com/polynetwork/poly/native/service"
@@ -474,6 +478,32 @@ func concurrentPart(r *kit.Run, txs []*types.Transaction, nHist int, check bool)
 
 var valSeq int
 
+// windowStore decorates the real ledger store behind ledger.DefLedger: right after a containment
+// lookup has produced its (real) answer, and before it is returned to the caller, a prepared
+// "block-saving" step runs. This injects, deterministically, the schedule in which the ledger
+// commits blocks while the stateful validator is in the middle of handling a CheckTx.
+type windowStore struct {
+	store.LedgerStore
+	afterLookup func()
+}
+
+func (w *windowStore) IsContainTransaction(h common.Uint256) (bool, error) {
+	ok, err := w.LedgerStore.IsContainTransaction(h)
+	if f := w.afterLookup; f != nil {
+		w.afterLookup = nil
+		f()
+	}
+	return ok, err
+}
+
+// ledgerOver builds a ledger.Ledger over an arbitrary store (the field is unexported; test plumbing).
+func ledgerOver(st store.LedgerStore) *ledger.Ledger {
+	l := &ledger.Ledger{}
+	fld := reflect.ValueOf(l).Elem().FieldByName("ldgStore")
+	reflect.NewAt(fld.Type(), unsafe.Pointer(fld.UnsafeAddr())).Elem().Set(reflect.ValueOf(st))
+	return l
+}
+
 func statefulPart(r *kit.Run) {
 	rng := r.Rand("stateful")
 	vals := pk.NewKeys(rng, 4)
@@ -485,7 +515,8 @@ func statefulPart(r *kit.Run) {
 		return
 	}
 	old := ledger.DefLedger
-	ledger.DefLedger = l
+	ws := &windowStore{LedgerStore: l.GetStore()}
+	ledger.DefLedger = ledgerOver(ws)
 	defer func() { ledger.DefLedger = old; l.Close() }()
 	valSeq++
 	v, err := stateful.NewValidator(fmt.Sprintf("c38-stateful-%d-%d", os.Getpid(), valSeq))
@@ -581,6 +612,81 @@ func statefulPart(r *kit.Run) {
 				chosen = append(chosen, e)
 			}
 		}
+		// blocks committed INSIDE the validator's handling of a CheckTx (between its containment
+		// lookup and its answer): 1..3 blocks, one of them containing the very transaction asked about
+		if b%2 == 0 {
+			e := mk()
+			pool = append(pool, e)
+			k := 1 + rng.Intn(3)
+			at := rng.Intn(k)
+			var others []*entry
+			for _, o := range pool {
+				if o.committed == 0 && o != e && len(others) < 2 && rng.Intn(4) == 0 {
+					inChosen := false
+					for _, ch := range chosen {
+						if ch == o {
+							inChosen = true
+						}
+					}
+					if !inChosen {
+						others = append(others, o)
+					}
+				}
+			}
+			var hookErr error
+			ws.afterLookup = func() {
+				for i := 0; i < k; i++ {
+					var txs []*types.Transaction
+					var es []*entry
+					if i == at {
+						txs, es = append(txs, e.tx), append(es, e)
+					}
+					if i == 0 {
+						for _, o := range others {
+							txs, es = append(txs, o.tx), append(es, o)
+						}
+					}
+					blk, _, err := c.AddBlock(txs, pk.BlockOpt{})
+					if err != nil {
+						hookErr = err
+						return
+					}
+					for _, x := range es {
+						x.committed = blk.Header.Height
+					}
+				}
+			}
+			before := c.Store.GetCurrentBlockHeight()
+			rsp, ok := ask(e.tx)
+			if hookErr != nil || !ok || ws.afterLookup != nil {
+				r.Inconclusive(fmt.Sprintf("window injection failed: %v ok=%v", hookErr, ok))
+				return
+			}
+			r.Eval(1)
+			r.Count("stateful_window_probes", 1)
+			r.Count("stateful_blocks", k)
+			r.Distinct("stateful-window", k, at, rsp.ErrCode == perr.ErrNoError)
+			// from the statement: an answer "not a duplicate, as of height H" must mean the tx is in no
+			// block <= H of the ledger at the time of the answer
+			switch rsp.ErrCode {
+			case perr.ErrNoError:
+				r.Count("stateful_window_answer_noerror", 1)
+				if e.committed != 0 && e.committed <= rsp.Height {
+					r.Violation("stateful:accepted-as-of-height-covering-its-block",
+						fmt.Sprintf("ledger at %d when the CheckTx arrived; %d block(s) were committed while the validator handled it, the tx in block %d; answer: not a duplicate as of height %d (ledger now at %d)", before, k, e.committed, rsp.Height, c.Store.GetCurrentBlockHeight()),
+						map[string]interface{}{"tx": kit.Hex(e.tx.ToArray()), "blocks_in_window": k, "tx_block": e.committed, "answered_height": rsp.Height})
+				}
+			case perr.ErrDuplicatedTx:
+				r.Count("stateful_window_answer_duplicate", 1)
+				if e.committed == 0 {
+					r.Violation("stateful:fresh-tx-refused:window", "tx in no block but refused as duplicate", kit.Hex(e.tx.ToArray()))
+				}
+			default:
+				r.Violation("stateful:fresh-tx-refused:window", fmt.Sprintf("answer %d", rsp.ErrCode), kit.Hex(e.tx.ToArray()))
+			}
+			// asked again with no commit in flight: now it is in the ledger
+			check(e, "after-window-commit")
+		}
 		for _, e := range chosen {
 			check(e, "before-commit")
 		}
@@ -609,7 +715,7 @@ func statefulPart(r *kit.Run) {
 func TestC38(t *testing.T) {
 	r := kit.Start(t, "C38", "exploration")
 	defer r.Finish()
-	r.Rule("increment validator: scripts over capacity 1..8 of {successor, gap, repeat/older, clean} blocks with 0..4 of 48 txs, after every step BlockRange and Verify(tx,start) for start ∈ {0, base-1, every tracked height, end, end+1} vs a reference tracker; concurrent AddBlock/Verify/BlockRange/Clean histories (2..12 goroutines racing for the same successor heights) checked by porcupine against the same reference; stateful validator actor on a real ledger: every tx asked before and after its block is committed; distinct = (part, capacity, op-mix)")
+	r.Rule("increment validator: scripts over capacity 1..8 of {successor, gap, repeat/older, clean} blocks with 0..4 of 48 txs, after every step BlockRange and Verify(tx,start) for start ∈ {0, base-1, every tracked height, end, end+1} vs a reference tracker; concurrent AddBlock/Verify/BlockRange/Clean histories (2..12 goroutines racing for the same successor heights) checked by porcupine against the same reference; stateful validator actor on a real ledger: every tx asked before and after its block is committed, and every second round asked WHILE 1..3 blocks (one containing it) are committed between the validator's ledger lookup and its answer (schedule injected through a decorator of the store behind ledger.DefLedger); distinct = (part, capacity, op-mix)")
 	r.Assume("Verify with start below the tracked range and a tx that is in no tracked block >= start: any non-'duplicated' answer is accepted (the tracker cannot vouch for heights it does not cover)")
 	r.Assume("capacity = the positive maxBlocks given to NewIncrementValidator (maxBlocks <= 0 is not exercised)")
 	txs := universe(r.Rand("txs"))
@@ -630,6 +736,7 @@ func TestC38(t *testing.T) {
 	r.Require("conc_verify_ok", nHist)
 	r.Require("stateful_in_ledger", 50)
 	r.Require("stateful_not_in_ledger", 50)
+	r.Require("stateful_window_probes", 15)
 	if n := r.Get("porcupine_unknown"); n > int64(nHist/50) {
 		r.Inconclusive(fmt.Sprintf("%d histories timed out in porcupine", n))
 	}
